@@ -2005,6 +2005,9 @@ class Transport(threading.Thread, ClosingContextManager):
         key = self._key_info[self.host_key_type](Message(host_key))
         if key is None:
             raise SSHException("Unknown host key type")
+        # the signature must have been made with the algorithm we negotiated
+        # (not merely with one the key happens to support, e.g. SHA-1 ssh-rsa)
+        self._check_sig_algorithm(self.host_key_type, sig)
         if not key.verify_ssh_sig(self.H, Message(sig)):
             raise SSHException(
                 "Signature verification ({}) failed.".format(
@@ -2012,6 +2015,25 @@ class Transport(threading.Thread, ClosingContextManager):
                 )
             )  # noqa
         self.host_key = key
+
+    @staticmethod
+    def _check_sig_algorithm(expected, sig):
+        """
+        Raise `.SSHException` unless the signature blob ``sig`` (bytes) names
+        the algorithm ``expected``. A certificate suffix in ``expected`` is
+        ignored: signatures made with certificate keys carry the plain name.
+        """
+        expected = expected.replace("-cert-v01@openssh.com", "")
+        try:
+            actual = Message(sig).get_text()
+        except UnicodeDecodeError:
+            actual = None
+        if actual != expected:
+            raise SSHException(
+                "Signature algorithm mismatch: expected {!r}, got {!r}".format(
+                    expected, actual
+                )
+            )
 
     def _compute_key(self, id, nbytes):
         """id is 'A' - 'F' for the various keys used by ssh"""
